@@ -242,6 +242,9 @@ func Validate(c *Case, tr *Trace, vo VOpts) *VResult {
 		switch op.K {
 		case OpScope:
 			scopeOfOp[i] = m.AddScope(op.S, op.Name)
+			if out.Ev1 > out.Ev0 {
+				v.add(CUserCodeOutsideInvoke, i, "Scope() executed user code: %v", tr.ExecutedSet(i))
+			}
 		case OpProvide, OpDecorate:
 			if out.Ev1 > out.Ev0 {
 				v.add(CUserCodeOutsideInvoke, i, "%s executed user code: %v", op.K, tr.ExecutedSet(i))
